@@ -145,6 +145,35 @@ def real(name, lo=None, hi=None, pos=False, default=None, strict=True):
     return float(v)
 
 
+def fp(name, lo, hi):
+    """IEEE double input variable in [lo, hi] (finite)"""
+    ST.vars[name] = "fp"
+    if ST.mode == "sym":
+        from . import fp as F
+        import z3
+
+        x = F.var(name)
+        c = _core()
+        c.ENGINE.add(z3.And(z3.fpLEQ(z3.FPVal(float(lo), F.F64), x.t), z3.fpLEQ(x.t, z3.FPVal(float(hi), F.F64))))
+        return x
+    if name in ST.values:
+        v = ST.values[name]
+        v = float.fromhex(v) if isinstance(v, str) and "0x" in v else float(_parse_value(v))
+    elif name in ST.drawn:
+        v = ST.drawn[name]
+    else:
+        if lo > 0 and hi / lo > 100:
+            v = math.exp(ST.rng.uniform(math.log(lo), math.log(hi)))
+        else:
+            v = ST.rng.uniform(lo, hi)
+        ST.drawn[name] = v
+    if ST.mode == "const":
+        from . import fp as F
+
+        return F.const(v)
+    return float(v)
+
+
 def integer(name, lo, hi, default=None):
     ST.vars[name] = "int"
     if ST.mode == "sym":
@@ -251,6 +280,10 @@ def tofloat(x):
     """numeric value of a python number or constant Sym"""
     if instrumented():
         c = _core()
+        from . import fp as F
+
+        if isinstance(x, F.SymFP):
+            return float(x)
         if isinstance(x, c.Sym):
             v = c.value_of(x)
             if v is None:
@@ -332,7 +365,12 @@ def eq(a, b, rtol=None):
         c = _core()
         z3 = _z3()
         parts = []
+        from . import fp as F
+
         for x, y in zip(fa, fb):
+            if isinstance(x, F.SymFP) or isinstance(y, F.SymFP):
+                parts.append(z3.fpEQ(F.fpval(x), F.fpval(y)))
+                continue
             tx, ty = c.term(x), c.term(y)
             if z3.is_bool(tx) or z3.is_bool(ty):
                 parts.append(c.tobool(x) == c.tobool(y))
@@ -354,7 +392,12 @@ def le(a, b, slack=0.0):
         c = _core()
         z3 = _z3()
         parts = []
+        from . import fp as F
+
         for x, y in zip(fa, fb):
+            if isinstance(x, F.SymFP) or isinstance(y, F.SymFP):
+                parts.append(z3.fpLEQ(F.fpval(x), F.fpval(y)))
+                continue
             tx, ty = c._arith(x, y)
             parts.append(tx <= ty)
         return c.SymBool(z3.And(*parts)) if parts else c.SymBool(z3.BoolVal(True))
